@@ -145,37 +145,41 @@ func (_this *Reader) ReadFloat64() float64 {
 }
 
 func (_this *Reader) ReadDecimalFloat() (compact_float.DFloat, *apd.Decimal) {
-	value, bigValue, _, err := compact_float.DecodeWithByteBuffer(&_this.reader, _this.buffer)
+	value, bigValue, byteCount, err := compact_float.DecodeWithByteBuffer(&_this.reader, _this.buffer)
 	if err != nil {
 		_this.unexpectedError(err)
 	}
+	_this.markBytesRead(byteCount)
 
 	return value, bigValue
 }
 
 func (_this *Reader) ReadDate() compact_time.Time {
-	value, _, err := compact_time.DecodeDateWithBuffer(&_this.reader, _this.buffer)
+	value, byteCount, err := compact_time.DecodeDateWithBuffer(&_this.reader, _this.buffer)
 	if err != nil {
 		_this.unexpectedError(err)
 	}
+	_this.markBytesRead(byteCount)
 
 	return value
 }
 
 func (_this *Reader) ReadTime() compact_time.Time {
-	value, _, err := compact_time.DecodeTimeWithBuffer(&_this.reader, _this.buffer)
+	value, byteCount, err := compact_time.DecodeTimeWithBuffer(&_this.reader, _this.buffer)
 	if err != nil {
 		_this.unexpectedError(err)
 	}
+	_this.markBytesRead(byteCount)
 
 	return value
 }
 
 func (_this *Reader) ReadTimestamp() compact_time.Time {
-	value, _, err := compact_time.DecodeTimestampWithBuffer(&_this.reader, _this.buffer)
+	value, byteCount, err := compact_time.DecodeTimestampWithBuffer(&_this.reader, _this.buffer)
 	if err != nil {
 		_this.unexpectedError(err)
 	}
+	_this.markBytesRead(byteCount)
 
 	return value
 }
@@ -255,10 +259,11 @@ func (_this *Reader) markBytesRead(byteCount int) {
 }
 
 func (_this *Reader) readSmallULEB128(name string, maxValue uint64) uint64 {
-	asUint, asBig, _, err := uleb128.DecodeWithByteBuffer(&_this.reader, _this.buffer)
+	asUint, asBig, byteCount, err := uleb128.DecodeWithByteBuffer(&_this.reader, _this.buffer)
 	if err != nil {
 		_this.unexpectedError(err)
 	}
+	_this.markBytesRead(byteCount)
 
 	if asBig != nil {
 		_this.errorf("%v: %v is too big (max allowed value = %v)", asBig, name, maxValue)
